@@ -413,6 +413,12 @@ func c09Exec(w *fw.Worker, c fw.Case) fw.Result {
 		return c09Big(idx, pfx, docPfx, cc.Big)
 	}
 	all := append(append([]c09Op{}, c09Bases[cc.Base]...), cc.Ops...)
+	defer func() {
+		// a KVIndex reloads the registered fields of its store: leave none behind
+		for _, f := range c09Fields {
+			idx.RemoveField(pfx + f)
+		}
+	}()
 	for i, o := range all {
 		var err error
 		switch o.Op {
